@@ -17,7 +17,7 @@ def random_case(prop, rng, tier):
     for i in range(n):
         t = {'id': rng.choice([i + 1, 1000 + i, -i]), 'parent': rng.randrange(i) if i and rng.random() < 0.6 else None, 'name': rng.choice(NAMES),
              'resource': rng.choice([None, 'ann', 'a-very-long-resource-name']), 'estimate': rng.choice([None, 3, 2.5, 100000]), 'spent': rng.choice([None, 0, 1.5]),
-             'start': rng.randrange(0, 400) if rng.random() < 0.5 else None, 'custom': {}, 'other': rng.random() < 0.15}
+             'start': rng.randrange(0, 400) if rng.random() < 0.5 else None, 'custom': {}, 'other': rng.random() < 0.15, 'detached': rng.random() < 0.12}
         if rng.random() < 0.4:
             t['custom']['tag'] = rng.choice(['T', None, 'long tag value here', 7])
         if rng.random() < 0.15:
@@ -45,7 +45,10 @@ def build(case):
             kw['start'] = datetime(2024, 1, 1) + timedelta(days=t['start'], hours=9)
         o = Task(t['id'], t['name'], resource=t['resource'], estimate=t['estimate'], spent=t['spent'], **kw)
         if t['parent'] is None:
-            (w2 if t['other'] else w) // o
+            if t.get('detached') and i > 0:
+                pass            # a task (tree) that belongs to no WBS: links to it leave the WBS
+            else:
+                (w2 if t['other'] else w) // o
         else:
             try:
                 objs[t['parent']] // o
@@ -207,7 +210,7 @@ def projection(prop):
 
 
 def rule(prop):
-    return ('random WBSs (1-8 tasks, two WBSs so that links can be external), names None / empty / long / non-ASCII, attributes of any '
+    return ('random WBSs (1-8 tasks, two WBSs and detached task trees so that links can be external), names None / empty / long / non-ASCII, attributes of any '
             'length, 1-5 fields drawn from standard, custom, differently-cased and unknown names or the default list, children on/off, '
             'themes with too few level colours and without header colour, per-task print_color; printed object: WBS roots, one task, a task '
             'list; non-trivial = >= 3 tasks')
